@@ -21,7 +21,10 @@ RULE = ("Mode 'burst': a live server subprocess (ThreadingTCPServer or ForkingTC
         "TLS, concentrated on a few directories so that cache writers and readers collide) on sockets that are all "
         "connected first and released together by a barrier; every reply must equal the reply the same request gets "
         "alone from a second pristine server on a pristine copy of the tree; afterwards the server must answer a "
-        "probe, have no zombie children and be back to its baseline thread count. Mode 'gated' (harness-owned "
+        "probe, have no zombie children and be back to its baseline thread count. Two enumerated 'crowd' bursts (one per "
+        "server type) release 37 different requests at once on a fixed site: six 0.9 MB documents and three ZIP members with "
+        "distinct contents through several protocols, and four scripts that print the request they were started for. "
+        "Mode 'gated' (harness-owned "
         "schedule): in-process, a cache writer is stopped right after it has truncated the cache file / after each "
         "write, a reader request for the same directory runs at that instant and must get its solo reply. Mode "
         "'lazyinit' (harness-owned schedule): the first request after start-up is suspended inside the configuration "
@@ -187,9 +190,36 @@ def _request(o, form):
     return clients.encode(form, selb), tls
 
 
+_CROWD_SCRIPT = "#!/bin/sh\necho \"script search=[$SEARCHREQUEST] selector=[$SELECTOR] request=[$REQUEST]\"\n"
+
+
+def _crowd():
+    """a fixed site for the enumerated 'crowd' bursts: large documents with distinct contents (a transfer takes many
+    read/send rounds) and scripts whose output names the request they were started for"""
+    spec = [["big%d.txt" % i, "f", "".join("document %d line %06d\n" % (i, n) for n in range(40000))] for i in range(6)]
+    spec += [["s%d.sh" % i, "f", _CROWD_SCRIPT, 0o755] for i in range(4)]
+    spec.append(["arc.zip", "zip", {"members": [["m%d.txt" % i, "f", "".join("member %d line %06d\n" % (i, n) for n in range(20000))]
+                                                 for i in range(3)]}])
+    plan = []
+    for i in range(6):
+        for form in (["gopher", "https", "gplus"] if i % 2 else ["gophers", "http", "spartan"]):
+            plan.append(({"sel": "/big%d.txt" % i, "kind": "doc"}, form))
+    for i in range(3):
+        plan.append(({"sel": "/arc.zip/m%d.txt" % i, "kind": "doc"}, ["gopher", "http", "gemini"][i]))
+    raw = []
+    for i in range(4):
+        raw += [(b"/s%d.sh\tquery%d\r\n" % (i, i), False, "gopher"), (b"/s%d.sh?a%d b\r\n" % (i, i), True, "gophers"),
+                (b"GET /s%d.sh?q=%d HTTP/1.0\r\n\r\n" % (i, i), False, "http"), (b"/s%d.sh\t+\r\n" % i, False, "gplus")]
+    return spec, plan, raw
+
+
 def _check_burst(case, ctx):
-    objs, dirs = _targets(case["site"])
-    spec = sites.to_spec(case["site"])
+    crowd_raw = []
+    if case.get("crowd"):
+        spec, plan0, crowd_raw = _crowd()
+    else:
+        objs, dirs = _targets(case["site"])
+        spec = sites.to_spec(case["site"])
     base = world.fresh_dir("c14")
     ra, rb = os.path.join(base, "A"), os.path.join(base, "B")
     os.mkdir(ra)
@@ -202,8 +232,16 @@ def _check_burst(case, ctx):
         sa = live.Server(live.write_conf(os.path.join(base, "a.conf"), ra, "full", case["servertype"]))
         sb = live.Server(live.write_conf(os.path.join(base, "b.conf"), rb, "full", "ThreadingTCPServer"))
         base_threads = sa.threads()
-        plan = [(_pick(objs, dirs, t), form) for t, form in case["reqs"]]
-        reqs = [_request(o, form) for o, form in plan]
+        if case.get("crowd"):
+            plan = list(plan0)
+            reqs = [_request(o, form) for o, form in plan]
+            for rq, tls, form in crowd_raw:
+                plan.append(({"sel": world.u(rq.split(b"\r")[0]), "kind": "doc"}, form))
+                reqs.append((rq, tls))
+            ctx.nontriv(("crowd", case["servertype"]))
+        else:
+            plan = [(_pick(objs, dirs, t), form) for t, form in case["reqs"]]
+            reqs = [_request(o, form) for o, form in plan]
         replies, times = live.burst(sa.port, reqs)
         # solo references, one at a time on the pristine twin
         solo = {}
@@ -438,6 +476,9 @@ def enumerate_cases(tier, seed):
     for st_ in ("ForkingTCPServer", "ThreadingTCPServer"):
         for idle in (10, 39):
             yield {"mode": "idle-crowd", "servertype": st_, "idle": idle}
+    # a crowd of different large downloads and scripts, all released at once
+    for st_ in ("ThreadingTCPServer", "ForkingTCPServer"):
+        yield {"mode": "burst", "crowd": True, "servertype": st_}
     # the in-process / live seam on a fixed site that has one object of every kind, every object through every form
     site = [["readme.txt", {"kind": "txt", "content": "hello\nworld\n"}], ["page.html", {"kind": "html", "title": "T", "content": "<html><title>T</title></html>\n"}],
             ["pic.gif", {"kind": "bin", "content": "GIF89a\x00\x01"}], ["notes.txt.gz", {"kind": "gz", "content": "compressed\n" * 50}],
